@@ -146,6 +146,14 @@ struct HarnessBase {
   virtual void end_stream(int k) = 0;
   virtual void drop_reader() = 0;
   virtual void drop_writer() = 0;
+  virtual void arm(bool on) = 0;
+};
+
+// Fault point inside the implementation methods (the virtual <Step>Impl calls behind the public step methods) of the
+// "faulty" readers and writers: when armed, the next implementation call throws before doing anything.
+struct FaultPoint {
+  bool armed = false;
+  void hit() { if (armed) { armed = false; throw std::runtime_error("harness: injected failure of the implementation call"); } }
 };
 
 template <typename T> static T pop_front_or_default(std::deque<T>& q) {
@@ -207,6 +215,8 @@ static json run_one(json const& run, std::vector<std::string> const& inputs) {
           else if (what == "CR") h->close_reader();
           else if (what == "CW") h->close_writer();
           else if (what == "FW") h->flush_writer();
+          else if (what == "ARM") h->arm(true);
+          else if (what == "DISARM") h->arm(false);
           else { cr["r"] = "exc"; cr["what"] = "unknown op"; }
         } catch (std::exception const& e) {
           cr["r"] = "exc"; cr["what"] = e.what();
@@ -260,16 +270,39 @@ def emit_harness(ns, versions, protos, copyto) -> str:
     out.append('  throw std::runtime_error("harness: unknown version label " + v);\n}\n')
     for pname, steps in protos.items():
         H = "H_" + pname
+        # the binary writer / reader with a fault point in front of every implementation method
+        bw, br = "%s::binary::%sWriter" % (ns, pname), "%s::binary::%sReader" % (ns, pname)
+        out.append("struct FW_%s : %s {\n  using %s::%sWriter;\n  FaultPoint fp;" % (pname, bw, bw, pname))
+        for s in steps:
+            out.append("  void Write%sImpl(%s const& value) override { fp.hit(); %s::Write%sImpl(value); }" % (s["pascal"], s["type"], bw, s["pascal"]))
+            if s["stream"]:
+                out.append("  void Write%sImpl(std::vector<%s> const& values) override { fp.hit(); %s::Write%sImpl(values); }" % (s["pascal"], s["type"], bw, s["pascal"]))
+                out.append("  void End%sImpl() override { fp.hit(); %s::End%sImpl(); }" % (s["pascal"], bw, s["pascal"]))
+        out.append("};")
+        out.append("struct FR_%s : %s {\n  using %s::%sReader;\n  FaultPoint fp;" % (pname, br, br, pname))
+        for s in steps:
+            if s["stream"]:
+                out.append("  bool Read%sImpl(%s& value) override { fp.hit(); return %s::Read%sImpl(value); }" % (s["pascal"], s["type"], br, s["pascal"]))
+                out.append("  bool Read%sImpl(std::vector<%s>& values) override { fp.hit(); return %s::Read%sImpl(values); }" % (s["pascal"], s["type"], br, s["pascal"]))
+            else:
+                out.append("  void Read%sImpl(%s& value) override { fp.hit(); %s::Read%sImpl(value); }" % (s["pascal"], s["type"], br, s["pascal"]))
+        out.append("};")
         out.append("struct %s : HarnessBase {" % H)
+        out.append("  FW_%s* fwriter = nullptr; FR_%s* freader = nullptr;" % (pname, pname))
+        out.append("  void arm(bool on) override { if (fwriter) fwriter->fp.armed = on; if (freader) freader->fp.armed = on; }")
         for k, s in enumerate(steps):
             out.append("  std::deque<%s> q%d;" % (s["type"], k))
         out.append("  std::unique_ptr<%s::%sReaderBase> reader; std::unique_ptr<%s::%sWriterBase> writer;" % (ns, pname, ns, pname))
         out.append("  %s::binary::%sReader* breader = nullptr;" % (ns, pname))
         out.append("  void make_reader(std::string const& fmt, std::istream& in) override {")
+        out.append("    freader = nullptr;")
+        out.append("    if (fmt == \"faulty\") { freader = new FR_%s(in); breader = freader; reader.reset(freader); } else" % pname)
         out.append("    if (fmt == \"binary\") { breader = new %s::binary::%sReader(in); reader.reset(breader); }" % (ns, pname))
         out.append("    else { breader = nullptr; reader.reset(new %s::ndjson::%sReader(in)); } }" % (ns, pname))
         out.append("  void make_writer(std::string const& fmt, std::ostream& out, std::string const& version) override {")
-        out.append("    if (fmt == \"binary\") { %s::Version v = (version == \"same_as_reader\" && breader) ? breader->GetVersion() : parse_version(version);" % ns)
+        out.append("    fwriter = nullptr;")
+        out.append("    if (fmt == \"binary\" || fmt == \"faulty\") { %s::Version v = (version == \"same_as_reader\" && breader) ? breader->GetVersion() : parse_version(version);" % ns)
+        out.append("      if (fmt == \"faulty\") { fwriter = new FW_%s(out, v); writer.reset(fwriter); } else" % pname)
         out.append("      writer.reset(new %s::binary::%sWriter(out, v)); }" % (ns, pname))
         out.append("    else writer.reset(new %s::ndjson::%sWriter(out)); }" % (ns, pname))
         nb = copyto[pname]
@@ -278,8 +311,8 @@ def emit_harness(ns, versions, protos, copyto) -> str:
         out.append("  void close_reader() override { reader->Close(); }")
         out.append("  void close_writer() override { writer->Close(); }")
         out.append("  void flush_writer() override { writer->Flush(); }")
-        out.append("  void drop_reader() override { reader.reset(); breader = nullptr; }")
-        out.append("  void drop_writer() override { writer.reset(); }")
+        out.append("  void drop_reader() override { reader.reset(); breader = nullptr; freader = nullptr; }")
+        out.append("  void drop_writer() override { writer.reset(); fwriter = nullptr; }")
         # read_one
         out.append("  bool read_one(int k) override { switch (k) {")
         for k, s in enumerate(steps):
